@@ -73,11 +73,13 @@ Fixpoint lex_ltb (a b : list nat) : bool :=
   end.
 
 (* insertion into a lexicographically sorted duplicate-free list of vertex lists *)
-Fixpoint insert_cl (c : clique) (l : list clique) : list clique :=
+Fixpoint insert_lex (c : clique) (l : list clique) : list clique :=
   match l with
   | [] => [c]
-  | d :: r => if list_eqb c d then l else if lex_ltb c d then c :: l else d :: insert_cl c r
+  | d :: r => if lex_ltb c d then c :: l else d :: insert_lex c r
   end.
+Definition insert_cl (c : clique) (l : list clique) : list clique :=
+  if existsb (list_eqb c) l then l else insert_lex c l.
 
 Definition sort_cl (l : list clique) : list clique := fold_right insert_cl [] l.
 
